@@ -143,7 +143,7 @@ func newWenv(base string, commit ...bool) *wenv {
 	mux := http.NewServeMux()
 	mux.Handle("/merge/", handleMerge(e.buckets))
 	mux.Handle("/chart/", handleChart(ucfg, e.buckets))
-	e.srv = httptest.NewServer(mux)
+	e.srv = verifrt.NewHTTPServer(mux)
 	return e
 }
 
